@@ -1713,3 +1713,10 @@ package yqlib
 //@   loop 3:
 //@     invariant @owned-so-far {C16} ownsItsChildren(sortedList)
 //@     invariant @position-kept {C10} sortedList != nil && sortedList.document == candidate.document && sortedList.fileIndex == candidate.fileIndex && sortedList.filename == candidate.filename
+
+// decoder_csv_object.go: a cell that does not parse as YAML is kept as text, never dereferenced (C11)
+//@ func (*csvObjectDecoder).convertToNode
+//@   props C11
+//@   noframe
+//@   requires dec != nil
+//@   ensures @a-node result != nil
